@@ -13,12 +13,12 @@ from engine import repo
 from engine.pathsym import pdmodel, symdata
 from engine.pathsym.core import (Inconclusive, SymInt, Violation, model_value, sym_and, sym_implies,
                                  as_bool_term)
-from . import oracle, ref, scenario
+from . import oracle, ref, scenario, tracecheck
 
 DEFAULTS = dict(entry='set_sim_join', filter=None, measure='JACCARD', nl=1, nr=2, k=3, kmin=1,
                 thresholds=[0.5], comp_ops=['>='], allow_empty=[True], out_sim_score=[True],
                 out_attrs=[(None, None)], kernel='real', order='identity', props=None,
-                nonempty=False, mono=False)
+                nonempty=False, mono=False, validate_every=300)
 
 
 class IdentityOrder(object):
@@ -261,8 +261,12 @@ def make(cfg_in):
         if _COUNTER[0] <= 2:
             mdl = c.get_model()
             sample = {'scenario': detail('-', '-', '-')(mdl)}
-        return {'nontrivial': len(res.rows) > 0, 'tags': ['rows=%d' % len(res.rows)],
-                'sample': sample}
+        tags = ['rows=%d' % len(res.rows)]
+        if cfg['kernel'] == 'real' and isinstance(s['threshold'], (int, float)) and cfg['filter'] != 'SuffixFilter':
+            vp = (props and sorted(props - {'CRASH'})[0]) or 'C01'
+            if tracecheck.maybe_validate(c, 'h_core', detail(vp, 'trace-validation', '-'), cfg['validate_every'], vp):
+                tags.append('validated')
+        return {'nontrivial': len(res.rows) > 0, 'tags': tags, 'sample': sample}
 
     return h
 
